@@ -12,8 +12,8 @@ import time
 
 VERIF = os.path.dirname(os.path.dirname(os.path.abspath(__file__)))
 REPO = os.environ.get("VERIF_REPO", "/repo")
-OUT = os.path.join(VERIF, "out")
-EVID = os.path.join(VERIF, "evidence")
+OUT = os.path.join(os.environ["VERIF_EVID_DIR"], "out") if os.environ.get("VERIF_EVID_DIR") else os.path.join(VERIF, "out")
+EVID = os.environ.get("VERIF_EVID_DIR") or os.path.join(VERIF, "evidence")
 ALL_CONFIGS = ["ws", "std", "libm", "mm", "none"]
 
 
